@@ -3,7 +3,7 @@
 From Coq Require Import Sorting.Permutation.
 From CKC Require Import Base.Prelude Base.Reflect Base.SortN Base.Combs Spec.Layout Spec.Poker.
 From CKC Require Import Model.Card Model.Hands Model.Five Model.HandRank.
-From CKC Require Import Proofs.CardFacts Proofs.CombFacts Proofs.FiveFacts Proofs.ShapeFacts Proofs.C01 Proofs.TableFacts.
+From CKC Require Import Proofs.CardFacts Proofs.CombFacts Proofs.FiveFacts Proofs.ShapeFacts Proofs.BestFacts Proofs.C05 Proofs.FreeFacts.
 From CKC Require Import Gen.Consts.
 Open Scope N_scope.
 
@@ -85,11 +85,12 @@ Proof.
   apply N.eqb_neq. intros E. apply Hne. apply Hinj; cbn [In]; tauto.
 Qed.
 
-Lemma relabel_hand5 f ws :
-  suit_bijection f -> Hand5 ws ->
-  Hand5 (map (relabel f) ws) /\ shape_of (map (relabel f) ws) = shape_of ws.
+(* relabelling keeps the cards real, the ranks, and "all suits equal" (repetition allowed) *)
+Lemma relabel_shape f ws :
+  suit_bijection f -> Forall RealCard ws ->
+  Forall RealCard (map (relabel f) ws) /\ shape_of (map (relabel f) ws) = shape_of ws.
 Proof.
-  intros Hf (HL & HR & HN). pose proof Hf as [Hf1 Hf2].
+  intros Hf HR. pose proof Hf as [Hf1 Hf2].
   assert (HR' : Forall RealCard (map (relabel f) ws)).
   { apply Forall_forall. intros x Hx. apply in_map_iff in Hx. destruct Hx as [w [<- Hw]].
     rewrite Forall_forall in HR. apply (relabel_fields f w Hf (HR w Hw)). }
@@ -99,20 +100,23 @@ Proof.
   assert (Es : map suit_of_word (map (relabel f) ws) = map f (map suit_of_word ws)).
   { rewrite !map_map. apply map_ext_in. intros w Hw. rewrite Forall_forall in HR.
     apply (relabel_fields f w Hf (HR w Hw)). }
-  split.
-  - repeat split; [now rewrite map_length | exact HR'|].
-    apply NoDup_map_inj_in; [|exact HN]. intros x y Hx Hy E.
-    rewrite Forall_forall in HR.
-    pose proof (relabel_fields f x Hf (HR x Hx)) as (_ & A1 & A2).
-    pose proof (relabel_fields f y Hf (HR y Hy)) as (_ & B1 & B2).
-    pose proof (real_card_fields x (HR x Hx)) as Fx. pose proof (real_card_fields y (HR y Hy)) as Fy.
-    cbv zeta in Fx, Fy.
-    apply real_card_eq; auto; [congruence|]. apply Hf2; try tauto. congruence.
-  - unfold shape_of. rewrite Er, Es. f_equal. apply all_same_map_inj.
-    intros s t Hs Ht. apply in_map_iff in Hs, Ht. destruct Hs as [x [<- Hx]]. destruct Ht as [y [<- Hy]].
-    rewrite Forall_forall in HR.
-    pose proof (real_card_fields x (HR x Hx)) as Fx. pose proof (real_card_fields y (HR y Hy)) as Fy.
-    cbv zeta in Fx, Fy. apply Hf2; tauto.
+  split; [exact HR'|].
+  unfold shape_of. rewrite Er, Es. apply (f_equal (pair (map rank_of_word ws))). apply all_same_map_inj.
+  intros s t Hs Ht. apply in_map_iff in Hs, Ht. destruct Hs as [x [<- Hx]]. destruct Ht as [y [<- Hy]].
+  rewrite Forall_forall in HR.
+  pose proof (real_card_fields x (HR x Hx)) as Fx. pose proof (real_card_fields y (HR y Hy)) as Fy.
+  cbv zeta in Fx, Fy. apply Hf2; tauto.
+Qed.
+
+(* the five-card evaluation only sees ranks and "all suits equal": NO table contents involved *)
+Lemma hrv5_relabel chk f ws :
+  suit_bijection f -> length ws = 5%nat -> Forall RealCard ws ->
+  hrv5 chk (map (relabel f) ws) = hrv5 chk ws.
+Proof.
+  intros Hf HL HR. destruct (relabel_shape f ws Hf HR) as [HR' E].
+  assert (HL' : length (map (relabel f) ws) = 5%nat) by (rewrite map_length; exact HL).
+  rewrite (hrv5_abs chk _ HL' HR'), (hrv5_abs chk ws HL HR).
+  unfold shape_of in E. injection E as -> ->. reflexivity.
 Qed.
 
 Lemma relabel_handN f n ws :
@@ -120,8 +124,7 @@ Lemma relabel_handN f n ws :
 Proof.
   intros Hf (HL & HR & HN). pose proof Hf as [Hf1 Hf2]. repeat split.
   - now rewrite map_length.
-  - apply Forall_forall. intros x Hx. apply in_map_iff in Hx. destruct Hx as [w [<- Hw]].
-    rewrite Forall_forall in HR. apply (relabel_fields f w Hf (HR w Hw)).
+  - apply (relabel_shape f ws Hf HR).
   - apply NoDup_map_inj_in; [|exact HN]. intros x y Hx Hy E.
     rewrite Forall_forall in HR.
     pose proof (relabel_fields f x Hf (HR x Hx)) as (_ & A1 & A2).
@@ -139,14 +142,23 @@ Proof.
   rewrite (nth_indep (map g ws) 0 (g 0)) by (rewrite map_length; lia). apply map_nth.
 Qed.
 
-Lemma relabel_table_value f n perms ws :
-  suit_bijection f -> valid_table n perms -> HandN n ws ->
-  table_value perms (map (relabel f) ws) = table_value perms ws.
+(* the ranking functions return the SAME outcome on the relabelled hand (no table contents involved) *)
+Lemma relabel_same chk f n ws :
+  suit_bijection f -> (n = 5 \/ n = 6 \/ n = 7)%nat -> HandN n ws ->
+  hand_rank_value chk (map (relabel f) ws) = hand_rank_value chk ws.
 Proof.
-  intros Hf [_ T] H. unfold table_value. apply (f_equal min_list). apply map_ext_in. intros p Hp.
-  rewrite (sel_map_commute (relabel f) n ws p (proj1 H) (T p Hp)).
-  destruct (relabel_hand5 f (sel ws p) Hf (proj1 (sel_hand5 n ws p H (T p Hp)))) as [_ E].
-  unfold value5. rewrite E. reflexivity.
+  intros Hf Hn H. pose proof H as (HL & HR & HN). unfold hand_rank_value, hrvh.
+  rewrite map_length, HL. destruct Hn as [->|Hn].
+  - exact (hrv5_relabel chk f ws Hf HL HR).
+  - destruct tables_valid as [T6 T7].
+    assert (G : forall perms, valid_table n perms ->
+              rmap fst (hrvh_best chk perms (map (relabel f) ws)) = rmap fst (hrvh_best chk perms ws)).
+    { intros perms [_ TR]. rewrite !hrvh_best_value. apply best_fold_rel; [|reflexivity].
+      intros p Hp. destruct (sel_facts n ws p H (TR p Hp)) as (A & B & _ & _ & E).
+      destruct (sel_facts n _ p (relabel_handN f n ws Hf H) (TR p Hp)) as (_ & _ & _ & _ & E').
+      exists (sel ws p), (sel (map (relabel f) ws) p). split; [exact E|]. split; [exact E'|].
+      rewrite (sel_map_commute (relabel f) n ws p HL (TR p Hp)). apply hrv5_relabel; assumption. }
+    destruct Hn as [->| ->]; [exact (G _ T6) | exact (G _ T7)].
 Qed.
 
 (* the value returned by ranking is invariant, for five, six and seven cards *)
@@ -154,17 +166,11 @@ Lemma relabel_value chk f n ws :
   suit_bijection f -> (n = 5 \/ n = 6 \/ n = 7)%nat -> HandN n ws ->
   exists v, hand_rank_value chk ws = Ok v /\ hand_rank_value chk (map (relabel f) ws) = Ok v.
 Proof.
-  intros Hf Hn H. destruct Hn as [->|Hn].
-  - destruct (relabel_hand5 f ws Hf H) as [H' E].
-    exists (ordinal (shape_of ws)). split.
-    + exact (proj1 (value_ok chk ws H)).
-    + rewrite <- E. exact (proj1 (value_ok chk _ H')).
-  - eexists. split.
-    + exact (proj1 (value_table_ok chk n ws Hn H)).
-    + rewrite <- (relabel_table_value f n _ ws Hf).
-      * exact (proj1 (value_table_ok chk n _ Hn (relabel_handN f n ws Hf H))).
-      * destruct tables_valid as [T6 T7]. destruct Hn as [->| ->]; assumption.
-      * exact H.
+  intros Hf Hn H. pose proof H as (HL & HR & _).
+  assert (HS : Slots n ws).
+  { split; [exact HL|]. eapply Forall_impl; [|exact HR]. intros x Hx. right. exact Hx. }
+  destruct (rank_total chk n ws Hn HS) as (_ & [v Hv] & _).
+  exists v. split; [exact Hv|]. rewrite (relabel_same chk f n ws Hf Hn H). exact Hv.
 Qed.
 
 Lemma shift_hand_is_relabel ws : Forall RealCard ws -> shift_suit_hand ws = map (relabel next_suit_spec) ws.
